@@ -40,7 +40,7 @@ OPS8 = ["platform", "port_nr", "reseq10", "group", "sort", "copy", "delete_shado
 
 SEEDS = [
     {"name": "flat-ios", "platform": "ios", "kwargs": {},
-     "lines": ["remark first", "permit tcp host 10.0.0.1 any eq 80 443", "permit tcp 10.0.0.0 0.0.0.255 any eq www",
+     "lines": ["remark first", "permit tcp host 10.0.0.1 any eq 80 443", "permit udp any eq 0 5 host 10.0.0.9", "permit tcp 10.0.0.0 0.0.0.255 any eq www",
                "deny udp any any range 100 200", "permit ip any any log"]},
     {"name": "grouped-ios", "platform": "ios", "kwargs": {"group_by": "= "},
      "lines": ["remark = WEB, servers", "permit tcp any host 10.1.1.1 eq 80", "permit tcp any host 10.1.1.1 eq 80 8080",
